@@ -59,24 +59,24 @@ func genA(t *rapid.T) CaseA {
 	var c CaseA
 	c.Schema = cfggen.GenSchema(t, rapid.IntRange(1, 3).Draw(t, "depth"))
 	c.Inst = cfggen.GenInstance(t, &c.Schema)
-	if rapid.IntRange(0, 3).Draw(t, "faulty") == 0 {
+	if rapid.IntRange(0, 3).Draw(t, "faulty") == 3 {
 		c.Inst, c.Fault = cfggen.InjectFault(t, &c.Schema, c.Inst)
 	}
-	c.NilCtx = rapid.IntRange(0, 4).Draw(t, "nilctx") == 0
+	c.NilCtx = rapid.IntRange(0, 4).Draw(t, "nilctx") == 4
 	stats := map[string]int{}
 
 	// reference form
 	ref := cfggen.PlainBody(&c.Schema, &c.Inst)
 	c.Forms = append(c.Forms, FormA{Steps: []string{}, Files: []FileA{{Name: "ref.hcl", Src: (&cfggen.Native{T: t}).Body(ref, 0)}}})
 
-	nforms := rapid.IntRange(2, 5).Draw(t, "nforms")
+	nforms := rapid.IntRange(1, 5).Draw(t, "nforms")
 	ds := &cfggen.DynState{Stats: stats}
 	for fi := 0; fi < nforms; fi++ {
 		var f FormA
 		steps := map[string]bool{}
 		// 1. dynamic
 		var body cfggen.RBody
-		if !c.NilCtx && rapid.IntRange(0, 9).Draw(t, "dyn") < 5 {
+		if !c.NilCtx && rapid.IntRange(0, 9).Draw(t, "dyn") >= 5 {
 			body = ds.BuildBody(t, &c.Schema, &c.Inst, 70)
 			if body.HasDyn() {
 				steps["dynamic"] = true
@@ -85,30 +85,30 @@ func genA(t *rapid.T) CaseA {
 		} else {
 			body = cfggen.PlainBody(&c.Schema, &c.Inst)
 		}
-		if !f.Expand && !c.NilCtx && rapid.IntRange(0, 7).Draw(t, "expand-noop") == 0 {
+		if !f.Expand && !c.NilCtx && rapid.IntRange(0, 7).Draw(t, "expand-noop") == 7 {
 			f.Expand = true
 			steps["expand-noop"] = true
 		}
 		// 2. shuffle
-		if rapid.IntRange(0, 9).Draw(t, "shuffle") < 5 {
+		if rapid.IntRange(0, 9).Draw(t, "shuffle") >= 5 {
 			body = cfggen.Shuffle(t, body)
 			steps["shuffle"] = true
 		}
 		// 3. split
 		parts := []cfggen.RBody{body}
-		if rapid.IntRange(0, 9).Draw(t, "split") < 4 {
+		if rapid.IntRange(0, 9).Draw(t, "split") >= 6 {
 			k := rapid.IntRange(2, 3).Draw(t, "k")
 			parts = cfggen.Split(t, body, k)
 			steps["split"] = true
 			f.Merge = true
-		} else if rapid.IntRange(0, 7).Draw(t, "merge1") == 0 {
+		} else if rapid.IntRange(0, 7).Draw(t, "merge1") == 7 {
 			f.Merge = true
 			steps["merge1"] = true
 		}
 		// 4. syntax + text-level rewrites per file
 		for pi, p := range parts {
 			var file FileA
-			if rapid.IntRange(0, 9).Draw(t, "json") < 4 {
+			if rapid.IntRange(0, 9).Draw(t, "json") >= 6 {
 				j := &cfggen.JSON{T: t, Noise: rapid.Bool().Draw(t, "jnoise"), Template: !c.NilCtx, Stats: stats}
 				file = FileA{Name: fmt.Sprintf("f%d_%d.hcl.json", fi, pi), JSON: true, Src: j.File(p)}
 				steps["json"] = true
@@ -117,16 +117,16 @@ func genA(t *rapid.T) CaseA {
 				}
 			} else {
 				n := &cfggen.Native{T: t, Stats: stats}
-				if rapid.IntRange(0, 9).Draw(t, "noise") < 5 {
+				if rapid.IntRange(0, 9).Draw(t, "noise") >= 5 {
 					n.Noise = true
-					n.CRLF = rapid.IntRange(0, 5).Draw(t, "crlf") == 0
+					n.CRLF = rapid.IntRange(0, 5).Draw(t, "crlf") == 5
 					steps["noise"] = true
 					if n.CRLF {
 						stats["noise:crlf"]++
 					}
 				}
 				file = FileA{Name: fmt.Sprintf("f%d_%d.hcl", fi, pi), Src: n.Body(p, 0)}
-				if rapid.IntRange(0, 9).Draw(t, "format") < 3 {
+				if rapid.IntRange(0, 9).Draw(t, "format") >= 7 {
 					file.Format = true
 					steps["format"] = true
 				}
@@ -398,22 +398,25 @@ func classifyA(c CaseA) core.Class {
 	cl.Labels = append(cl.Labels, fmt.Sprintf("nesting:%d", maxDepth))
 	rl := repeatedOrLabelled(&c.Inst)
 	cl.NonTrivial = rl && maxRw >= 2
-	var cs []string
+	// the widest combination of this case
+	top := ""
 	for k := range combos {
-		cs = append(cs, k)
+		if strings.Count(k, "+") > strings.Count(top, "+") || (strings.Count(k, "+") == strings.Count(top, "+") && k < top) || top == "" {
+			top = k
+		}
 	}
-	sort.Strings(cs)
-	if len(cs) > 2 {
-		cs = cs[:2]
+	kind := "valid"
+	if c.Fault != "" {
+		kind = "faulty"
 	}
-	cl.Fingerprint = fmt.Sprintf("%s|depth=%d|nil=%v|%s", fault, maxDepth, c.NilCtx, strings.Join(cs, ","))
+	cl.Fingerprint = fmt.Sprintf("%s|deep=%v|%s", kind, maxDepth >= 2, top)
 	return cl
 }
 
 func TestC19a(t *testing.T) {
 	core.Run(t, core.Spec[CaseA]{
 		Property: "C19", Sub: "a",
-		Rule: "generated hcldec spec / gohcl struct type (attributes: string number bool list set map object tuple any; blocks: single list set map(1-2 labels) tuple object attrs, 0-2 labels, nesting<=3) + conforming or single-fault instance, rendered as plain native text (reference) and 2-5 forms composing: JSON syntax (own emitter from json/spec.md), shuffled items, comments/odd whitespace/CRLF, hclwrite.Format, k-way split merged with hcl.MergeFiles (attributes in exactly one file, per-type block order kept), runs of blocks folded into dynamic blocks (tuple/object/variable for_each, labels, custom iterator, nested, inherited iterator) expanded with dynblock.Expand. Oracle: every form agrees with the reference on has-errors and on the decoded value for hcldec.Decode and gohcl.DecodeBody, and the reference of a conforming instance decodes to the instance. Non-trivial: >=1 repeated or labelled block and a form composing >=2 rewrites; distinct = (fault kind, schema depth, nil context, first two rewrite combinations)",
+		Rule: "generated hcldec spec / gohcl struct type (attributes: string number bool list set map object tuple any; blocks: single list set map(1-2 labels) tuple object attrs, 0-2 labels, nesting<=3) + conforming or single-fault instance, rendered as plain native text (reference) and 2-5 forms composing: JSON syntax (own emitter from json/spec.md), shuffled items, comments/odd whitespace/CRLF, hclwrite.Format, k-way split merged with hcl.MergeFiles (attributes in exactly one file, per-type block order kept), runs of blocks folded into dynamic blocks (tuple/object/variable for_each, labels, custom iterator, nested, inherited iterator) expanded with dynblock.Expand. Oracle: every form agrees with the reference on has-errors and on the decoded value for hcldec.Decode and gohcl.DecodeBody, and the reference of a conforming instance decodes to the instance. Non-trivial: >=1 repeated or labelled block and a form composing >=2 rewrites; distinct = (valid/faulty, nesting>=2, widest rewrite combination of the case)",
 		Gen:   genA, Check: checkA, Classify: classifyA,
 		Assumptions: []string{
 			"go-cty (conversion, number parsing, set ordering) is the trusted base of the expected values",
